@@ -90,6 +90,7 @@ type Obligation struct {
 	extra  []string
 	vc     *VC
 	inputs []string // names of input constants for model extraction
+	tags   map[int]bool
 }
 
 // ---------- engine ----------
@@ -122,10 +123,14 @@ type Engine struct {
 	ioSites       []ioSite
 	constArrs     map[string]string
 	sumFns        map[string]string
+	sortPerms     []sortPerm
+	anc           map[int]map[int]bool // top-level function: block -> blocks that can reach it (forward edges)
+	allocRefs     map[string]bool
+	allocBase     map[string]string
 }
 
 func newEngine(p *Prog, fn *ssa.Function) *Engine {
-	return &Engine{prog: p, vc: newVC(p), root: fn, rootKey: funcKey(fn), heapSorts: map[string]string{}, heapInit: map[string]string{}, maxInline: 4, nameCount: map[string]int{}, calledFns: map[string]bool{}, usedContracts: map[string]bool{}, ghosts: map[string]*ghostRef{}, constArrs: map[string]string{}, sumFns: map[string]string{}}
+	return &Engine{prog: p, vc: newVC(p), root: fn, rootKey: funcKey(fn), heapSorts: map[string]string{}, heapInit: map[string]string{}, maxInline: 4, nameCount: map[string]int{}, calledFns: map[string]bool{}, usedContracts: map[string]bool{}, ghosts: map[string]*ghostRef{}, constArrs: map[string]string{}, sumFns: map[string]string{}, allocRefs: map[string]bool{}, allocBase: map[string]string{}}
 }
 
 func (e *Engine) note(kind, s string) {
@@ -150,7 +155,7 @@ func (e *Engine) initHeap(name, sort string) string {
 	}
 	c := name + "!0"
 	// declared up-front (at line 0) so that every prefix sees it
-	e.vc.lines = append([]string{fmt.Sprintf("(declare-const %s %s)", c, sort)}, e.vc.lines...)
+	e.vc.insertGlobal(0, fmt.Sprintf("(declare-const %s %s)", c, sort))
 	for _, o := range e.vc.obls {
 		o.prefix++
 	}
@@ -158,7 +163,7 @@ func (e *Engine) initHeap(name, sort string) string {
 	e.heapSorts[name] = sort
 	if strings.HasPrefix(name, "called_") || name == "lock_held" {
 		// ghost flags start false
-		e.vc.lines = append([]string{e.vc.lines[0], "(assert (not " + c + "))"}, e.vc.lines[1:]...)
+		e.vc.insertGlobal(1, "(assert (not "+c+"))")
 		for _, o := range e.vc.obls {
 			o.prefix++
 		}
@@ -186,7 +191,13 @@ func (e *Engine) oblName(kind, label string) string {
 
 func (e *Engine) addObl(st *State, kind, label, prop string, pos token.Pos) *Obligation {
 	goal := implies(st.cond, prop)
+	if e.vc.inline {
+		return &Obligation{Name: "inline", Status: "discharged"}
+	}
 	o := &Obligation{Name: e.oblName(kind, label), Func: e.rootKey, Kind: kind, Pos: e.prog.posStr(pos), prefix: len(e.vc.lines), goal: goal, vc: e.vc}
+	if e.vc.curTag >= 0 && e.anc != nil {
+		o.tags = e.anc[e.vc.curTag]
+	}
 	if goal == "true" {
 		o.Status = "discharged"
 		o.Solver = "trivial"
@@ -343,6 +354,7 @@ type Frame struct {
 	params   []Val
 	iters    map[ssa.Value]*iterVal
 	loopHavoc map[int]map[ssa.Value]Val
+	loopMapBad bool
 }
 
 type deferRec struct {
@@ -415,14 +427,58 @@ func (fr *Frame) findLoops() {
 			return true
 		})
 	}
-	// order headers by the source position of the loop (position of first positioned instr in header or comment)
-	sort.Slice(hs, func(i, j int) bool { return fr.loopPos(hs[i]) < fr.loopPos(hs[j]) })
+	// map each SSA loop to its AST statement: the innermost loop statement that contains the positions of all
+	// (non-phi) instructions of the loop's blocks
+	stmtOf := map[int]int{}
+	used := map[int]bool{}
+	okMap := len(stmts) == len(hs)
+	for _, h := range hs {
+		li := fr.loops[h]
+		best := -1
+		for si, st := range stmts {
+			contains := true
+			any := false
+			for bi := range li.blocks {
+				for _, in := range fn.Blocks[bi].Instrs {
+					if _, isPhi := in.(*ssa.Phi); isPhi {
+						continue
+					}
+					p := in.Pos()
+					if d, ok := in.(*ssa.DebugRef); ok {
+						p = d.Expr.Pos()
+					}
+					if !p.IsValid() {
+						continue
+					}
+					any = true
+					if p < st.Pos() || p >= st.End() {
+						contains = false
+					}
+				}
+			}
+			if contains && any && (best < 0 || (stmts[si].Pos() >= stmts[best].Pos() && stmts[si].End() <= stmts[best].End())) {
+				best = si
+			}
+		}
+		if best < 0 || used[best] {
+			okMap = false
+			continue
+		}
+		used[best] = true
+		stmtOf[h] = best
+	}
+	if okMap {
+		sort.Slice(hs, func(i, j int) bool { return stmtOf[hs[i]] < stmtOf[hs[j]] })
+	} else {
+		sort.Ints(hs)
+		fr.loopMapBad = true
+	}
 	for i, h := range hs {
 		li := fr.loops[h]
 		li.ordinal = i
-		if len(stmts) == len(hs) {
-			li.stmt = stmts[i]
-			switch x := stmts[i].(type) {
+		if okMap {
+			li.stmt = stmts[stmtOf[h]]
+			switch x := li.stmt.(type) {
 			case *ast.ForStmt:
 				li.finger = fr.e.prog.srcText(x.Pos(), x.Body.Lbrace)
 			case *ast.RangeStmt:
@@ -500,6 +556,24 @@ func (fr *Frame) buildEnv() {
 		env["&"+fv.Name()] = fv
 	}
 	walk(fn.Blocks[0], env)
+}
+
+// ancestors: for each block, the set of blocks from which it is reachable along forward (non-back) edges, incl. itself.
+func (fr *Frame) ancestors() map[int]map[int]bool {
+	anc := map[int]map[int]bool{}
+	for _, b := range fr.rpo() {
+		s := map[int]bool{b.Index: true}
+		for _, p := range b.Preds {
+			if fr.isBackEdge(p, b) {
+				continue
+			}
+			for k := range anc[p.Index] {
+				s[k] = true
+			}
+		}
+		anc[b.Index] = s
+	}
+	return anc
 }
 
 // rpo returns blocks in reverse post-order ignoring back edges.
@@ -581,7 +655,13 @@ func (fr *Frame) run(st *State, args []Val) []retRec {
 	}
 	fr.params = args
 	fr.entry = st.clone()
+	if fr.top {
+		e.anc = fr.ancestors()
+	}
 	for _, b := range fr.rpo() {
+		if fr.top {
+			e.vc.curTag = b.Index
+		}
 		var conds []string
 		var sts []*State
 		var preds []*ssa.BasicBlock
@@ -755,10 +835,38 @@ func (fr *Frame) addrOf(v Val) *addr {
 	return &addr{kind: aObj, rootT: pt.Elem(), T: pt.Elem(), ref: v.S}
 }
 
+// forward resolves (select H ref) through the chain of stores that define H when the answer is syntactically
+// determined: a store to the same reference yields the stored value; stores to other allocation references are skipped.
+func (e *Engine) forward(h, ref string) (string, bool) {
+	for i := 0; i < 64; i++ {
+		def, ok := e.vc.defs[h]
+		if !ok {
+			return "", false
+		}
+		x := parseSx(def)
+		if x == nil || len(x.list) != 4 || x.list[0].atom != "store" {
+			return "", false
+		}
+		r := x.list[2].String()
+		if r == ref {
+			return x.list[3].String(), true
+		}
+		if e.allocRefs[r] && e.allocRefs[ref] {
+			h = x.list[1].String()
+			continue
+		}
+		return "", false
+	}
+	return "", false
+}
+
 func (e *Engine) loadRoot(st *State, a *addr) string {
 	switch a.kind {
 	case aObj:
 		hn, hs := e.vc.heapName(a.rootT)
+		if v, ok := e.forward(e.heap(st, hn, hs), a.ref); ok {
+			return e.vc.define("fw", e.vc.sortOf(a.rootT), v)
+		}
 		return app("select", e.heap(st, hn, hs), a.ref)
 	case aElem:
 		hn, hs := e.vc.arrHeapName(a.rootT)
@@ -865,6 +973,11 @@ func (fr *Frame) store(st *State, a *addr, v Val) {
 func (e *Engine) alloc(st *State) string {
 	ref := st.top
 	st.top = e.vc.define("top", "Int", app("+", st.top, "1"))
+	if e.allocBase[ref] == "" {
+		e.allocBase[ref] = ref
+	}
+	e.allocBase[st.top] = e.allocBase[ref]
+	e.allocRefs[ref] = true
 	return ref
 }
 
@@ -883,7 +996,15 @@ func (fr *Frame) loopCut(li *loopInfo, cur *State, phiVals map[*ssa.Phi]Val) {
 	}
 	// havoc: phis at header
 	hv := map[ssa.Value]Val{}
-	for phi, v := range phiVals {
+	for _, hin := range h.Instrs {
+		phi, isPhi := hin.(*ssa.Phi)
+		if !isPhi {
+			break
+		}
+		v, okv := phiVals[phi]
+		if !okv {
+			continue
+		}
 		if v.Clo != nil || len(v.Tup) > 0 {
 			continue
 		}
@@ -927,10 +1048,20 @@ func (fr *Frame) loopCut(li *loopInfo, cur *State, phiVals map[*ssa.Phi]Val) {
 			}
 		}
 	}
-	if len(modNames) > 0 || true {
+	{
 		nt := e.vc.fresh("top", "Int")
 		e.vc.assume(app(">=", nt, topEntry))
 		cur.top = nt
+	}
+	// references held in loop-carried variables denote objects allocated before the current iteration
+	for _, hin := range h.Instrs {
+		phi, isPhi := hin.(*ssa.Phi)
+		if !isPhi {
+			break
+		}
+		if nv, ok := hv[phi]; ok {
+			e.assumeIn(cur, e.allocInv(cur, nv.S, phi.Type()))
+		}
 	}
 	// iterators started before the loop and advanced inside: their seen-set is havocked via heaps (it lives in heaps)
 	assumeEnv := fr.invEnv(li, cur, phiVals)
@@ -1681,7 +1812,7 @@ func (fr *Frame) indexAddr(x *ssa.IndexAddr, st *State) Val {
 	switch bt := types.Unalias(x.X.Type()).Underlying().(type) {
 	case *types.Slice:
 		e.addObl(st, "panic.index", fr.lbl(fr.idxLabel(x)), and(app("<=", "0", i.S), app("<", i.S, app("slen", base.S))), x.Pos())
-		a := &addr{kind: aElem, rootT: bt.Elem(), ref: app("sptr", base.S), idx: e.vc.define("ix", "Int", app("+", app("soff", base.S), i.S)), T: bt.Elem()}
+		a := &addr{kind: aElem, rootT: bt.Elem(), ref: app("sptr", base.S), idx: e.vc.define("ix", "Int", app("idx", app("soff", base.S), i.S)), T: bt.Elem()}
 		return Val{S: "addr", T: x.Type(), Addr: a}
 	case *types.Pointer:
 		at, ok := types.Unalias(bt.Elem()).Underlying().(*types.Array)
@@ -1766,13 +1897,17 @@ func (fr *Frame) valName(v ssa.Value) string {
 	case *ssa.Lookup:
 		return fr.valName(y.X) + "[" + fr.valName(y.Index) + "]"
 	}
-	// look for a debug name
+	// look for a debug name (deterministically: smallest name over all blocks)
+	best := ""
 	for _, env := range fr.envAt {
 		for n, sv := range env {
-			if sv == v && !strings.HasPrefix(n, "&") {
-				return n
+			if sv == v && !strings.HasPrefix(n, "&") && (best == "" || n < best) {
+				best = n
 			}
 		}
+	}
+	if best != "" {
+		return best
 	}
 	return "_"
 }
